@@ -574,7 +574,17 @@ fn gen_enum(d: &mut Dice, tr: (&'static str, &'static str, &'static str), mode: 
             let app: Vec<&Var> = vars.iter().filter(|v| v.own.is_none()).collect();
             let avail = common_fields(&app, gk0);
             let nfld = if avail.is_empty() { 0 } else { d.weighted(&[3, 5, 3]) };
-            if nfld == 0 || d.chance(70) {
+            if nfld == 0 && tr_ty != "p" && d.chance(22) {
+                // the whole default format is one bare placeholder of the derived trait over a non-field argument: a
+                // "transparent" literal that does not mention `_variant` is still the format of every attribute-less
+                // variant, unit variants included (seed C02-l)
+                if d.chance(50) {
+                    shared.positional(d, "self.tag()", Spec::bare(tr_ty));
+                } else {
+                    shared.alias(d, "self.tag()", Spec::bare(tr_ty));
+                }
+                labels.push("default_is_one_bare_placeholder".into());
+            } else if nfld == 0 || d.chance(70) {
                 shared.text(d, &words);
             }
             for _ in 0..nfld {
